@@ -117,7 +117,7 @@ def roundtrip_violations(soln, OptimResults):
 class RoundTripMonitor(solvex.Monitor):
     def on_end(self, ex):
         if ex.outcome != "returned":
-            if ex.outcome == "raised" and not any(c["letter"] == "raise" for c in ex.calls):
+            if ex.outcome == "raised" and not mon.raise_is_allowed(ex):
                 ex.violate("returns", "solve raised %s: %s" % (type(ex.exc).__name__, ex.exc))
             return
         s = ex.soln
@@ -202,6 +202,10 @@ def _configs(tier, salts):
                     if tier == "quick" and maxfun == 25 and mode in ("boxball_diag", "doc_ballbox", "diag_nopoised", "hard_mu0"):
                         depth = 0
                     out.append((cfg, {"depth": depth, "letters": LETTERS}))
+        if salt == 0 or tier == "thorough":
+            for name, cfg in cfgs.broad_cfgs(salt=salt, budgets=(3, 9, 30, 70), reg_budgets=(3, 8)):
+                depth = 1 if (cfg.get("memo", True) and cfg["maxfun"] == 9 and "reg" not in cfg["broad_flags"]) else 0
+                out.append((cfg, {"depth": depth, "letters": ["nan", "nan1", "inf"]}))
         if salt == 0:
             # objective non-finite at every evaluation: results that carry NaN / inf fields
             for mode in ("plain", "diag", "soft_diag", "hard"):
